@@ -641,6 +641,31 @@ def _cache_key(problems):
     return False
 
 
+def _allowlist_cache_class(ctree, problems):
+    """conversion.py: `_ALLOWLIST_CACHE = cache.<Class>()` — which cache class keys the remembered verdicts;
+    pyct/cache.py CodeObjectCache._get_key must be the code-object rule when that class is used."""
+    kind = 'unresolved'
+    for n in ctree.body:
+        if isinstance(n, ast.Assign) and len(n.targets) == 1 and isinstance(n.targets[0], ast.Name) and n.targets[0].id == '_ALLOWLIST_CACHE':
+            src = ast.unparse(n.value)
+            kind = {'cache.UnboundInstanceCache()': 'unboundInstance', 'cache.CodeObjectCache()': 'codeObject'}.get(src, 'unresolved')
+    if kind == 'unresolved':
+        problems.append('conversion._ALLOWLIST_CACHE: cache class not recognised')
+    if kind == 'codeObject':
+        tree = ast.parse(_read('malt/pyct/cache.py'))
+        c = _cls(tree, 'CodeObjectCache')
+        ok = False
+        if c is not None:
+            for st in c.body:
+                if isinstance(st, ast.FunctionDef) and st.name == '_get_key':
+                    body = [ast.unparse(x) for x in _strip_doc(st.body)]
+                    ok = body == ["if hasattr(entity, '__code__'):\n    return entity.__code__\nelse:\n    return entity"]
+        if not ok:
+            problems.append('cache.CodeObjectCache._get_key has an unrecognised shape')
+            kind = 'unresolved'
+    return kind
+
+
 def _strict(tree, problems):
     fn = _func(tree, 'is_autograph_strict_conversion_mode')
     want = "return int(os.environ.get('AUTOGRAPH_STRICT_CONVERSION', '0')) > 0"
@@ -678,6 +703,7 @@ def gen_policy(problems):
     strict_var = _strict(atree, problems)
     artifact_ok = _artifact(atree, problems)
     key_drops_receiver = _cache_key(problems)
+    cache_class = _allowlist_cache_class(ctree, problems)
 
     # the rule kind an entry of CONVERSION_RULES *acts as* (class -> action returned by get_action)
     def acts_as(kind):
@@ -828,6 +854,11 @@ def gen_policy(problems):
     A('def artifactIsAttributeTest : Bool := %s' % _b(artifact_ok))
     A('/-- `UnboundInstanceCache._get_key`: a bound method is keyed by its `__func__`. -/')
     A('def cacheKeyDropsReceiver : Bool := %s' % _b(key_drops_receiver))
+    A('/-- The cache class of `conversion._ALLOWLIST_CACHE` (what a remembered verdict is keyed by). -/')
+    A('inductive CacheKind where')
+    A('  | unboundInstance | codeObject | unresolved')
+    A('  deriving DecidableEq, Repr')
+    A('def allowlistCacheKind : CacheKind := .%s' % cache_class)
     A('')
     A('end Malt.Gen.Policy')
     return '\n'.join(L) + '\n'
